@@ -52,6 +52,17 @@ def has_constant(e):
     return False
 
 
+def refdepth(t):
+    """Length of the longest chain of references inside a term."""
+    if t[0] == 'string':
+        return 1 + refdepth(t[1][1]) if t[1][0] == 'hash' else 0
+    if t[0] == 'prim':
+        return max([refdepth(x) for x in t[2]] + [0])
+    if t[0] == 'seq':
+        return max([refdepth(x) for x in t[1]] + [0])
+    return 0
+
+
 def tup(x):
     return tuple(tup(y) for y in x) if isinstance(x, (list, tuple)) else x
 
@@ -73,9 +84,23 @@ def compare(ctx, fam, reg, script, status, cur, expansions, nrefs, order=None, e
         ok = False
         ctx.mismatch('%s:%s:%s:%s:%s' % (sig, where, fam, icls, obs), text + '\nregistered=%s\nexpression=%s' % (bodies, src), case)
 
-    ec = ExecutionContext()
-    for k in order:
-        ec.register_global_constant(copy.deepcopy(bodies[k]))
+    def register(seq):
+        ec = ExecutionContext()
+        for k in seq:
+            ec.register_global_constant(copy.deepcopy(bodies[k]))
+        return ec
+
+    try:
+        ec = register(order)
+    except Exception:   # noqa
+        # Tezos itself refuses a constant that references a hash not registered yet; an implementation doing the same
+        # is not judged for it: retry with referenced constants first, and leave the case out if that is refused too
+        try:
+            ec = register(sorted(range(len(reg)), key=lambda k: refdepth(reg[k])))
+            ctx.skip('registration in seeded order refused, dependency order used')
+        except Exception:   # noqa
+            ctx.skip('registration refused (constant references an unregistered hash)')
+            return True
     keys = sorted(ec.global_constants)
     wantkeys = sorted(ref.expr_hash(b) for b in bodies)
     if keys != wantkeys:
@@ -140,6 +165,7 @@ def run(ctx):
     outs = [v for v in r.printed if v[0] == 'OUT']
     if len(outs) < 1000:
         raise Exception('only %d cases exported' % len(outs))
+    outs.sort(key=lambda v: repr(v[1:4]))     # TLC prints in worker order; the replay order must not depend on it
     rng = random.Random(ctx.seed * 7919 + 33)
     stats = {'done': 0, 'failed': 0, 'nested': 0}
     sampled = set()
